@@ -1,2 +1,163 @@
-(* Runtime (scheduler) cases: filled in with the Sched model. *)
-let handle (_kind : string) (_id : string) (_hd : string list) (_rest : string list) : unit = raise Not_found
+(* Runtime (scheduler) cases: X (call APIs), S (stream APIs), H (histories), Y (pairs).
+   Format: /verif/harness/FORMAT.md.  Parsing and printing only; all behaviour is in model.ml. *)
+open Model
+
+let rec nat_of_int n = if n <= 0 then O else S (nat_of_int (n - 1))
+let rec int_of_nat = function O -> 0 | S n -> 1 + int_of_nat n
+let toks s = List.filter (fun t -> t <> "" && t <> "-") (String.split_on_char ' ' s)
+let ids l = if l = [] then "-" else String.concat " " (List.map (fun x -> string_of_int (int_of_nat x)) l)
+let ids_dot l = if l = [] then "-" else String.concat "." (List.map (fun x -> string_of_int (int_of_nat x)) l)
+
+let parse_ops_hook : (string -> bop list) ref = ref (fun _ -> [])
+
+let kv tokens key default =
+  let p = key ^ "=" in
+  let lp = String.length p in
+  match List.find_opt (fun t -> String.length t >= lp && String.sub t 0 lp = p) tokens with
+  | Some t -> String.sub t lp (String.length t - lp)
+  | None -> default
+
+let parse_strat s =
+  match s with
+  | "non" -> SNonInt | "ign" -> SIgnore | "fin" -> SFinish
+  | _ -> (match String.split_on_char ':' s with
+          | ["pn"; k] -> SPollN (nat_of_int (int_of_string k))
+          | _ -> failwith ("bad strat " ^ s))
+
+let parse_imm s =
+  if s = "-" || s = "" then [] else
+  List.map (fun e -> match String.split_on_char ':' e with
+    | [i; r] -> (nat_of_int (int_of_string i), r = "o")
+    | _ -> failwith ("bad imm " ^ e)) (String.split_on_char ',' s)
+
+let build_graph ops_s =
+  let (g, _) = run_ops empty_dag (!parse_ops_hook ops_s) in
+  match build g with BOk (gg, _, _) -> gg | _ -> failwith "build failed in runtime case"
+
+let parse_cfg gg tokens =
+  let api = match kv tokens "api" "foreach" with
+    | "fold" -> AFold | "tryfold" -> ATryFold | "foreach" -> AForEach | "tryforeach" -> ATryForEach
+    | a -> failwith ("bad api " ^ a) in
+  let b k = kv tokens k "0" = "1" in
+  mk_cfg gg (kv tokens "ord" "f" = "r") api (b "mut") (b "ctl")
+    (nat_of_int (int_of_string (kv tokens "lim" "0")))
+    (parse_strat (kv tokens "strat" "non")) (kv tokens "incl" "1" = "1") (parse_imm (kv tokens "imm" "-")) true
+
+let str_trace t =
+  if t = [] then "-" else
+  String.concat " " (List.map (function
+    | Start i -> "s" ^ string_of_int (int_of_nat i)
+    | End (i, ok) -> "e" ^ string_of_int (int_of_nat i) ^ (if ok then "o" else "e")) t)
+
+let str_outcome = function
+  | None -> "-"
+  | Some o ->
+    (match o.o_kind with
+     | KFoldErr i -> Printf.sprintf "- - | - | - | folderr:%d" (int_of_nat i)
+     | k -> Printf.sprintf "%s %s | %s | %s | %s" (if o.o_finished then "F" else "I")
+              (ids o.o_processed) (ids o.o_not_processed) (ids o.o_errs)
+              (match k with KOk -> "ok" | KErr -> "err" | KContinue -> "cont" | KBreak -> "break" | KFoldErr _ -> "?"))
+
+(* one call run: returns unit, prints with tag prefix *)
+type callrun = { cf : cfg; mutable st : state; mutable nstart : int; mutable k : int; mutable stopped : bool; pre : string; id : string }
+
+let mk_callrun id pre cf = { cf; st = init cf; nstart = 0; k = 0; stopped = false; pre; id }
+
+let rec drop n l = if n <= 0 then l else match l with [] -> [] | _ :: t -> drop (n - 1) t
+
+let call_event r tok =
+  if r.stopped then () else begin
+    let nosettle = String.length tok > 0 && tok.[0] = '+' in
+    let t = if nosettle then String.sub tok 1 (String.length tok - 1) else tok in
+    let aborted = ref false in
+    (match t with
+     | "s" -> ()
+     | "i" -> r.st <- step r.cf r.st EInt
+     | "p" -> r.st <- step r.cf r.st EPoll
+     | "a" -> aborted := true
+     | _ when String.length t >= 3 && t.[0] = 'c' ->
+       let ok = t.[String.length t - 1] = 'o' in
+       let i = int_of_string (String.sub t 1 (String.length t - 2)) in
+       r.st <- step r.cf r.st (ECmp (nat_of_int i, ok))
+     | _ -> failwith ("bad event " ^ t));
+    if !aborted then begin
+      Printf.printf "OBS %s %se%d - A\n" r.id r.pre r.k; r.stopped <- true
+    end else begin
+      if not nosettle then r.st <- step r.cf r.st ESettle;
+      let st = starts r.st.trace in
+      let fresh = drop r.nstart st in
+      r.nstart <- List.length st;
+      let status = if not (is_none r.st.panic) then "X" else if not (is_none r.st.result) then "R" else "P" in
+      Printf.printf "OBS %s %se%d %s %s\n" r.id r.pre r.k (ids_dot fresh) status;
+      if status = "X" then r.stopped <- true
+    end;
+    r.k <- r.k + 1
+  end
+
+let call_finish r =
+  Printf.printf "OBS %s %sT %s\n" r.id r.pre (str_trace r.st.trace);
+  Printf.printf "OBS %s %sO %s\n" r.id r.pre (if is_none r.st.panic then str_outcome r.st.result else "-")
+
+let parse_scfg gg tokens =
+  let rev = kv tokens "ord" "f" = "r" in
+  { sc_n = List.length gg.fg_nodes |> nat_of_int;
+    sc_es = (if rev then gg.fg_struct_rev else gg.fg_struct);
+    sc_counts = (if rev then gg.fg_outgoing else gg.fg_incoming);
+    sc_strat = parse_strat (kv tokens "strat" "non");
+    sc_interruptible = (kv tokens "int" "0" = "1");
+    sc_drain = true }
+
+let stream_run id pre sc events =
+  let st = ref (sinit sc) in
+  let k = ref 0 in
+  let w s = if s.woken then "1" else "0" in
+  List.iter (fun t ->
+    (match t with
+     | "n" ->
+       let (s', r) = sstep sc !st SNext in
+       (match r with
+        | WPending -> st := s'; Printf.printf "OBS %s %se%d P W%s\n" id pre !k (if not (is_none s'.panic) then "-" else w s')
+        | WNone -> st := { s' with woken = false }; Printf.printf "OBS %s %se%d N W-\n" id pre !k
+        | WItem x -> st := { s' with woken = false }; Printf.printf "OBS %s %se%d Y%d W-\n" id pre !k (int_of_nat x)
+        | WInt None -> st := { s' with woken = false }; Printf.printf "OBS %s %se%d I- W-\n" id pre !k
+        | WInt (Some x) -> st := { s' with woken = false }; Printf.printf "OBS %s %se%d I%d W-\n" id pre !k (int_of_nat x))
+     | "i" -> st := fst (sstep sc !st SInt); Printf.printf "OBS %s %se%d W%s\n" id pre !k (w !st)
+     | "x" -> st := fst (sstep sc !st SDropStream); Printf.printf "OBS %s %se%d W%s\n" id pre !k (w !st)
+     | _ when String.length t >= 2 && t.[0] = 'd' ->
+       let i = int_of_string (String.sub t 1 (String.length t - 1)) in
+       st := fst (sstep sc !st (SDrop (nat_of_int i))); Printf.printf "OBS %s %se%d W%s\n" id pre !k (w !st)
+     | _ -> failwith ("bad stream event " ^ t));
+    incr k) events;
+  Printf.printf "OBS %s %sZ %s\n" id pre (if is_none !st.panic then "ok" else "X");
+  Printf.printf "OBS %s %sT %s\n" id pre (str_trace !st.trace)
+
+let handle kind id _hd rest =
+  let rest = List.map String.trim rest in
+  match kind, rest with
+  | "X", [ops; cfgs; evs] ->
+    let gg = build_graph ops in
+    let r = mk_callrun id "" (parse_cfg gg (toks cfgs)) in
+    List.iter (call_event r) (toks evs); call_finish r
+  | "S", [ops; cfgs; evs] ->
+    let gg = build_graph ops in
+    stream_run id "" (parse_scfg gg (toks cfgs)) (toks evs)
+  | "H", ops :: runs ->
+    let gg = build_graph ops in
+    List.iteri (fun j run ->
+      let pre = Printf.sprintf "r%d." j in
+      match String.split_on_char ';' run with
+      | [c; e] ->
+        (match toks c with
+         | "call" :: ct -> let r = mk_callrun id pre (parse_cfg gg ct) in List.iter (call_event r) (toks e); call_finish r
+         | "stream" :: ct -> stream_run id pre (parse_scfg gg ct) (toks e)
+         | _ -> failwith "bad run kind")
+      | _ -> failwith "bad run") runs
+  | "Y", [ops; ca; cb; evs] ->
+    let gg = build_graph ops in
+    let ra = mk_callrun id "A." (parse_cfg gg (toks ca)) and rb = mk_callrun id "B." (parse_cfg gg (toks cb)) in
+    List.iter (fun t ->
+      if String.length t > 2 && String.sub t 0 2 = "A:" then call_event ra (String.sub t 2 (String.length t - 2))
+      else if String.length t > 2 && String.sub t 0 2 = "B:" then call_event rb (String.sub t 2 (String.length t - 2))
+      else failwith ("bad pair event " ^ t)) (toks evs);
+    call_finish ra; call_finish rb
+  | _ -> raise Not_found
